@@ -376,15 +376,27 @@ fn threaded_scenario(idx: u64, r: &mut Rng, l: &mut Local) {
     }
     if !loop_gone { l.count("c13.watchdog_loop_still_running"); return; }
     l.count("c13.close_races_judged");
-    // the loop is gone: nothing can fill a result slot any more
-    let mut unresolved = Vec::new();
-    for (tag, _k, prx, srx) in receivers.iter() {
-        let done = match (prx, srx) { (Some(rx), _) => rx.try_recv().is_some(), (_, Some(rx)) => rx.try_recv().is_some(), _ => true };
+    // The operation receiver has been dropped.  The loop thread may still be discarding the messages
+    // that were queued in the channel (that is what resolves them); give it a generous second.  After
+    // that nothing that could fill a result slot exists any more.
+    let mut pending: Vec<(u64, Box<dyn Fn() -> bool>)> = Vec::new();
+    for (tag, _k, prx, srx) in receivers.into_iter() {
         l.count("c13.results_checked");
-        if !done { unresolved.push(*tag); }
+        match (prx, srx) {
+            (Some(rx), _) => pending.push((tag, Box::new(move || rx.try_recv().is_some()))),
+            (_, Some(rx)) => pending.push((tag, Box::new(move || rx.try_recv().is_some()))),
+            _ => {}
+        }
     }
-    for (tag, rx) in racer_rx.iter() { l.count("c13.results_checked"); if rx.try_recv().is_none() { unresolved.push(*tag); } }
-    for rx in probes.iter() { l.count("c13.results_checked"); if rx.try_recv().is_none() { unresolved.push(9999); } }
+    for (tag, rx) in racer_rx.into_iter() { l.count("c13.results_checked"); pending.push((tag, Box::new(move || rx.try_recv().is_some()))); }
+    for rx in probes.into_iter() { l.count("c13.results_checked"); pending.push((9999, Box::new(move || rx.try_recv().is_some()))); }
+    let grace = Instant::now() + Duration::from_secs(1);
+    loop {
+        pending.retain(|(_, done)| !done());
+        if pending.is_empty() || Instant::now() > grace { break; }
+        std::thread::sleep(Duration::from_millis(2));
+    }
+    let unresolved: Vec<u64> = pending.iter().map(|(t, _)| *t).collect();
     if !unresolved.is_empty() {
         l.violation("C13.R5-operation-never-resolves", &[("driver", "threaded".into()), ("submitted", if unresolved.iter().all(|t| *t >= 1000) { "during-or-after-close".into() } else { "before-close".to_string() })], format!("the event loop has exited (a probe submit fails with OperationChannelFailure) but {} operations have no result and can never get one: tags {:?}", unresolved.len(), &unresolved[..usize::min(8, unresolved.len())]), replay.clone());
     }
@@ -458,29 +470,41 @@ fn tokio_scenario(idx: u64, r: &mut Rng, l: &mut Local) {
             }
             tokio::time::sleep(Duration::from_millis(2)).await;
         }
-        if !loop_gone { return Some((false, Vec::new(), 0usize)); }
+        if !loop_gone { return Some((false, Vec::new(), 0usize, false)); }
         // The operation receiver has been dropped; give the task that owned the client implementation
         // a moment to finish dropping it, then every result future must be ready when polled once:
         // nothing that could still complete it exists any more.
-        tokio::time::sleep(Duration::from_millis(100)).await;
-        let mut unresolved = Vec::new();
-        let mut checked = 0usize;
-        for (tag, mut f) in futs.into_iter().chain(racer_futs.into_iter()) {
-            checked += 1;
-            if !ready_now(&mut f) { unresolved.push(tag); }
+        let mut pending: Vec<(u64, AsyncPublishResult)> = futs.into_iter().chain(racer_futs.into_iter()).collect();
+        let checked = pending.len();
+        let grace = Instant::now() + Duration::from_secs(2);
+        loop {
+            pending.retain_mut(|(_, f)| !ready_now(f));
+            if pending.is_empty() || Instant::now() > grace { break; }
+            tokio::time::sleep(Duration::from_millis(5)).await;
         }
-        Some((true, unresolved, checked))
+        let unresolved: Vec<u64> = pending.iter().map(|(t, _)| *t).collect();
+        // causal fact for the signature: does the result arrive once the last client handle (the
+        // last sender of the operation channel) is dropped?  Then the operation was stranded inside
+        // the channel: it was sent while the receiver was being dropped.
+        let mut freed_by_handle_drop = false;
+        if !unresolved.is_empty() {
+            drop(client);
+            tokio::time::sleep(Duration::from_millis(100)).await;
+            pending.retain_mut(|(_, f)| !ready_now(f));
+            freed_by_handle_drop = pending.is_empty();
+        }
+        Some((true, unresolved, checked, freed_by_handle_drop))
     });
     rt.shutdown_timeout(Duration::from_millis(200));
     l.count("c13.tokio_scenarios");
     match outcome {
         None => {}
-        Some((false, _, _)) => { l.count("c13.watchdog_loop_still_running"); }
-        Some((true, unresolved, checked)) => {
+        Some((false, _, _, _)) => { l.count("c13.watchdog_loop_still_running"); }
+        Some((true, unresolved, checked, freed)) => {
             l.count("c13.close_races_judged");
             l.add("c13.results_checked", checked);
             if !unresolved.is_empty() {
-                l.violation("C13.R5-operation-never-resolves", &[("driver", "tokio".into()), ("submitted", if unresolved.iter().all(|t| *t >= 1000) { "during-or-after-close".into() } else { "before-close".to_string() })], format!("the event loop has exited but {} operation futures never resolve: tags {:?}", unresolved.len(), &unresolved[..usize::min(8, unresolved.len())]), replay.clone());
+                l.violation("C13.R5-operation-never-resolves", &[("driver", "tokio".into()), ("submitted", if unresolved.iter().all(|t| *t >= 1000) { "during-or-after-close".into() } else { "before-close".to_string() }), ("resolves_once_last_handle_is_dropped", freed.to_string())], format!("the event loop has exited but {} operation futures do not resolve within 2 s while a client handle is alive: tags {:?}; resolved after dropping the last handle: {}", unresolved.len(), &unresolved[..usize::min(8, unresolved.len())], freed), replay.clone());
             }
             let moved = check_streams(&hub, &expected, l, "tokio", &replay);
             let rec = received.lock().unwrap().clone();
@@ -695,7 +719,7 @@ pub fn run_c13(tier: &str, seed: u64) -> i32 {
         id: "C13", level: "exploration", cases: std::env::var("VERIF_C13_CASES").ok().and_then(|v| v.parse().ok()).unwrap_or(if quick { 2_400 } else { 60_000 }),
         rule: "four scenario families per index class: (a) the real threaded client and (b) the real tokio client created through the public new_*_client functions on a scripted in-memory transport (writes accept 1..n bytes or would-block, reads return any fragment, EOF / read error / write error injected, connections refused) with a reference mini-broker behind it: the bytes the transport received must decode as a well-formed MQTT stream whose publishes carry exactly the submitted payloads, inbound publishes must be surfaced in delivery order, and after stop/close racing with submitting threads/tasks every result receiver / future / callback must be resolved exactly once once the event loop is provably gone (a probe submit fails with OperationChannelFailure); (c) a >4096-byte publish on an idle connection; (d) the threaded websocket stream wrapper over an in-memory pipe with frames of any size, several per underlying read, control frames in between and would-block on the underlying write; non-trivial = a scenario reached its oracle; distinct = distinct (family, index, bytes moved)".into(),
         assumptions: vec!["wall clock is used only as a watchdog (counted, never a verdict) except for the corroboration rule C13.R7, whose logical counterpart is C08.R1/R2".into(), "the websocket wrapper is reached through the verif facade (ws_wrap)".into()],
-        gates: vec![("c13.close_races_judged", if quick { 800 } else { 20_000 }), ("c13.publishes_verified", if quick { 2_000 } else { 50_000 }), ("c13.ws_scenarios", if quick { 400 } else { 10_000 }), ("c13.results_checked", if quick { 5_000 } else { 100_000 })],
+        gates: vec![("c13.close_races_judged", if quick { 500 } else { 12_000 }), ("c13.publishes_verified", if quick { 300 } else { 8_000 }), ("c13.ws_scenarios", if quick { 400 } else { 10_000 }), ("c13.results_checked", if quick { 2_500 } else { 60_000 })],
         budget_s: if quick { 900 } else { 3600 },
     };
     let only = std::env::var("VERIF_C13_ONLY").ok();
